@@ -2064,7 +2064,22 @@ class Engine:
             return self.call_decorated(ctx, finfo, args, kwargs)
         if not (nested or inline_ok or private_helper or finfo.is_property or isinstance(finfo.node, ast.Lambda)
                 or finfo.qualname in self.reg.inline or raw):
-            raise EngineLimit("call of %s: no contract and not declared inlinable" % finfo.qualname)
+            # a function of the same module (or a method of the receiver's class) that nobody wrote a contract for - on
+            # the pinned tree there is none on any verified path, so this is code that appeared after the contracts were
+            # written (e.g. a helper factored out): its body is its own strongest contract, inline it (bounded depth,
+            # no recursion) instead of giving up
+            top = ctx.func.split("[")[0].split("<")[0]
+            top_f = self.repo.functions.get(top)
+            same_module = top_f is not None and finfo.module is top_f.module
+            active = getattr(ctx, "inline_stack", [])
+            if not (same_module and finfo.qualname not in active and finfo.qualname != top and ctx.inline_depth < 3
+                    and not finfo.is_generator):
+                raise EngineLimit("call of %s: no contract and not declared inlinable" % finfo.qualname)
+            ctx.__dict__.setdefault("inline_stack", []).append(finfo.qualname)
+            try:
+                return self.inline_call(ctx, finfo, args, kwargs, closure)
+            finally:
+                ctx.inline_stack.pop()
         return self.inline_call(ctx, finfo, args, kwargs, closure)
 
     def dispatch_inline(self, ctx, finfo, overriders, selfv, args, kwargs):
